@@ -218,8 +218,7 @@ func (pc ParseContext) compileSparsePatterns(ctx context.Context, b ast.Branch) 
 	result := make([]rel.FallbackPattern, 0, len(nodes))
 	for _, expr := range nodes {
 		if expr.One("empty") != nil {
-			result = append(result, rel.NewFallbackPattern(nil, nil))
-			continue
+			return nil, fmt.Errorf("an array pattern cannot have an empty item: %s", b.Scanner())
 		}
 		ptn, err := pc.compilePattern(ctx, expr.(ast.Branch))
 		if err != nil {
